@@ -45,9 +45,10 @@ def check_pulse_limits(cs, slot, label="C01") -> list:
         ws = [w for _, w in cs.dmm_weights[1]] if cs.dmm_weights else []
         mn = float(rd.min()) if len(rd) else 0.0
         if ws:
-            if ch.bottom_detuning is not None and max(ws) * mn < ch.bottom_detuning - 1e-9 * abs(ch.bottom_detuning):
+            mn = float(det.min()) if len(det) else 0.0  # unrounded; 1.5e-6 covers the rounding rule
+            if ch.bottom_detuning is not None and max(ws) * mn < ch.bottom_detuning - 1.5e-6:
                 v.append((f"{label}/dmm-bottom", f"{where}: per-atom detuning {max(ws) * mn} below bottom_detuning {ch.bottom_detuning}"))
-            if ch.total_bottom_detuning is not None and sum(ws) * mn < ch.total_bottom_detuning - 1e-9 * abs(ch.total_bottom_detuning):
+            if ch.total_bottom_detuning is not None and sum(ws) * mn < ch.total_bottom_detuning - 1.5e-6:
                 v.append((f"{label}/dmm-total-bottom", f"{where}: total detuning {sum(ws) * mn} below total_bottom_detuning {ch.total_bottom_detuning}"))
     d = slot.tf - slot.ti
     if d % ch.clock_period:
@@ -192,11 +193,12 @@ class C01(Oracle):
                 return "DONT_CARE", "dmm+"
             ws = [w for _, w in cs.dmm_weights[1]] if cs.dmm_weights else [1.0]
             mn = float(rd.min())
-            # stay a relative 1e-6 inside the bottom limits (float products)
-            if ch.bottom_detuning is not None and max(ws) * mn < ch.bottom_detuning * (1 - 1e-6):
-                return "DONT_CARE", "bottom"
-            if ch.total_bottom_detuning is not None and sum(ws) * mn < ch.total_bottom_detuning * (1 - 1e-6):
-                return "DONT_CARE", "total"
+            # within 1.5e-6 of a bottom limit the 1e-6 rounding rule decides;
+            # only clearly-inside pulses are claimed
+            if ch.bottom_detuning is not None and max(ws) * float(det.min()) < ch.bottom_detuning + 1.5e-6:
+                return "DONT_CARE", "bottom (rounding band or below)"
+            if ch.total_bottom_detuning is not None and sum(ws) * float(det.min()) < ch.total_bottom_detuning + 1.5e-6:
+                return "DONT_CARE", "total (rounding band or below)"
         else:
             basis = ch.basis
             tg = cs.slots[-1].targets
